@@ -11,6 +11,26 @@
 mod refspec;
 use refspec::*;
 use std::mem::MaybeUninit;
+use std::alloc::{GlobalAlloc, Layout, System};
+use std::sync::atomic::{AtomicU64, Ordering};
+
+/// C19: counts allocator calls so that every real parse call can be checked to perform none
+struct Counting;
+static ALLOCS: AtomicU64 = AtomicU64::new(0);
+unsafe impl GlobalAlloc for Counting {
+    unsafe fn alloc(&self, l: Layout) -> *mut u8 { ALLOCS.fetch_add(1, Ordering::Relaxed); System.alloc(l) }
+    unsafe fn dealloc(&self, p: *mut u8, l: Layout) { System.dealloc(p, l) }
+    unsafe fn realloc(&self, p: *mut u8, l: Layout, n: usize) -> *mut u8 { ALLOCS.fetch_add(1, Ordering::Relaxed); System.realloc(p, l, n) }
+}
+#[global_allocator]
+static GLOBAL: Counting = Counting;
+static PARSE_ALLOCS: AtomicU64 = AtomicU64::new(0);
+fn noalloc<T>(f: impl FnOnce() -> T) -> T {
+    let a = ALLOCS.load(Ordering::Relaxed);
+    let r = f();
+    PARSE_ALLOCS.fetch_add(ALLOCS.load(Ordering::Relaxed) - a, Ordering::Relaxed);
+    r
+}
 
 fn hex(b: &[u8]) -> String { b.iter().map(|x| format!("{:02x}", x)).collect() }
 fn unhex(s: &str) -> Vec<u8> { (0..s.len() / 2).map(|i| u8::from_str_radix(&s[2 * i..2 * i + 2], 16).unwrap()).collect() }
@@ -60,7 +80,7 @@ fn real_request(buf: &[u8], cfg: Cfg, cap: usize, entry: u8) -> RealReq {
     let (outcome, method, path, version, headers, hlen_after);
     if entry == 0 {
         let mut req = httparse::Request::new(&mut arr[..cap]);
-        let r = if cfg == Cfg::default() { req.parse(buf) } else { pc.parse_request(&mut req, buf) };
+        let r = noalloc(|| if cfg == Cfg::default() { req.parse(buf) } else { pc.parse_request(&mut req, buf) });
         outcome = outcome_of(r);
         method = req.method.map(|m| range_in(buf, m.as_ptr(), m.len()));
         path = req.path.map(|m| range_in(buf, m.as_ptr(), m.len()));
@@ -71,7 +91,7 @@ fn real_request(buf: &[u8], cfg: Cfg, cap: usize, entry: u8) -> RealReq {
         let mut un: Vec<MaybeUninit<httparse::Header>> = (0..cap).map(|_| MaybeUninit::uninit()).collect();
         let mut empty: [httparse::Header; 0] = [];
         let mut req = httparse::Request::new(&mut empty);
-        let r = if cfg == Cfg::default() { req.parse_with_uninit_headers(buf, &mut un) } else { pc.parse_request_with_uninit_headers(&mut req, buf, &mut un) };
+        let r = noalloc(|| if cfg == Cfg::default() { req.parse_with_uninit_headers(buf, &mut un) } else { pc.parse_request_with_uninit_headers(&mut req, buf, &mut un) });
         outcome = outcome_of(r);
         method = req.method.map(|m| range_in(buf, m.as_ptr(), m.len()));
         path = req.path.map(|m| range_in(buf, m.as_ptr(), m.len()));
@@ -91,7 +111,7 @@ fn real_response(buf: &[u8], cfg: Cfg, cap: usize, entry: u8) -> RealResp {
     let mut arr = vec![httparse::Header { name: SENT_NAME, value: SENT_VAL }; cap];
     if entry == 0 {
         let mut resp = httparse::Response::new(&mut arr[..]);
-        let r = if cfg == Cfg::default() { resp.parse(buf) } else { pc.parse_response(&mut resp, buf) };
+        let r = noalloc(|| if cfg == Cfg::default() { resp.parse(buf) } else { pc.parse_response(&mut resp, buf) });
         let outcome = outcome_of(r);
         let headers = if matches!(outcome, Outcome::Complete(_)) { hdr_ranges(buf, resp.headers) } else { vec![] };
         RealResp { outcome, version: resp.version, code: resp.code, reason: resp.reason.map(|m| (range_in(buf, m.as_ptr(), m.len()), m.len())), headers, hlen_after: resp.headers.len() }
@@ -99,7 +119,7 @@ fn real_response(buf: &[u8], cfg: Cfg, cap: usize, entry: u8) -> RealResp {
         let mut un: Vec<MaybeUninit<httparse::Header>> = (0..cap).map(|_| MaybeUninit::uninit()).collect();
         let mut empty: [httparse::Header; 0] = [];
         let mut resp = httparse::Response::new(&mut empty);
-        let r = pc.parse_response_with_uninit_headers(&mut resp, buf, &mut un);
+        let r = noalloc(|| pc.parse_response_with_uninit_headers(&mut resp, buf, &mut un));
         let outcome = outcome_of(r);
         let headers = if matches!(outcome, Outcome::Complete(_)) { hdr_ranges(buf, resp.headers) } else { vec![] };
         let hl = if matches!(outcome, Outcome::Complete(_)) { resp.headers.len() } else if resp.headers.len() == 0 { cap } else { usize::MAX };
@@ -180,7 +200,7 @@ fn check_headers(ctx: &mut Ctx, buf: &[u8], cap: usize) {
     ctx.evals += 1;
     let exp = spec_hdrs(buf, 0, HCfg::default(), cap);
     let mut arr = vec![httparse::Header { name: SENT_NAME, value: SENT_VAL }; cap];
-    let r = httparse::parse_headers(buf, &mut arr[..]);
+    let r = noalloc(|| httparse::parse_headers(buf, &mut arr[..]));
     let (real_s, ok) = match (&r, &exp) {
         (Ok(httparse::Status::Complete((n, hs))), SRes::Complete(ehs, en)) => (format!("Complete({}, {:?})", n, hdr_ranges(buf, hs)), n == en && hdrs_match(&hdr_ranges(buf, hs), ehs)),
         (Ok(httparse::Status::Partial), SRes::Partial) => ("Partial".into(), true),
@@ -192,7 +212,7 @@ fn check_headers(ctx: &mut Ctx, buf: &[u8], cap: usize) {
 fn check_chunk(ctx: &mut Ctx, buf: &[u8]) {
     ctx.evals += 1;
     let exp = spec_chunk(buf);
-    let r = httparse::parse_chunk_size(buf);
+    let r = noalloc(|| httparse::parse_chunk_size(buf));
     let ok = match (&r, &exp) {
         (Ok(httparse::Status::Complete((n, v))), SChunk::Complete(en, ev)) => n == en && (*v as u128) == *ev,
         (Ok(httparse::Status::Partial), SChunk::Partial) => true,
@@ -223,6 +243,7 @@ const BOUNDARY: &[u8] = &[0x00, 0x01, 0x08, 0x09, 0x0a, 0x0b, 0x0d, 0x1f, 0x20, 
 fn search_chunk(ctx: &mut Ctx) {
     let alpha = [b'0', b'9', b'a', b'F', b'g', b' ', b'\t', b';', b'\r', b'\n', 0u8, b'x', 0xff, b'G'];
     enumerate(&alpha, 5, b"", b"", &mut |b| { check_chunk(ctx, b); !ctx.full() });
+    enumerate(&[b'a', b'\r', b'\n', b';', b' '], 6, b"1;", b"", &mut |b| { check_chunk(ctx, b); !ctx.full() });
     for prefix in [&b"1"[..], b"fF", b"0;", b"a \t"] {
         enumerate(&alpha, 4, prefix, b"", &mut |b| { check_chunk(ctx, b); !ctx.full() });
     }
@@ -230,7 +251,7 @@ fn search_chunk(ctx: &mut Ctx) {
         for d in [b'0', b'1', b'f', b'F', b'9', b'a'] {
             for first in [b'0', b'1', b'f', b'8'] {
                 let mut v = vec![d; n]; if n > 0 { v[0] = first; }
-                for suf in [&b"\r\n"[..], b"", b"\r", b";x\r\n", b" \r\n", b"\n", b"g\r\n", b" 1\r\n", b";a\rb\r\n", b";a\nb\r\n", b";\n"] {
+                for suf in [&b"\r\n"[..], b"", b"\r", b";x\r\n", b" \r\n", b"\n", b"g\r\n", b" 1\r\n", b";a\rb\r\n", b";a\nb\r\n", b";\n", b";a\r\r\nX\r\n", b";a\r\r\n", b"\r\r\n"] {
                     let mut b = v.clone(); b.extend_from_slice(suf); check_chunk(ctx, &b);
                 }
             }
@@ -367,8 +388,15 @@ fn main() {
         if fam == "request" || fam == "all" { search_request(&mut ctx); }
         if fam == "response" || fam == "all" { search_response(&mut ctx); }
         if fam == "headers" || fam == "all" { search_header_block(&mut ctx, b"", 2); }
+        let pa = PARSE_ALLOCS.load(Ordering::Relaxed);
+        if pa > 0 {
+            ctx.max += 1;
+            ctx.gen = "alloc-count";
+            ctx.add(Finding { stage: "any", gen: "", family: "alloc", oracle: "allocation".into(), entry: "any parse entry point".into(), cfg: 0, cap: 0, input: vec![],
+                              real: format!("{} allocator calls inside parse calls over this search", pa), expected: "0".into() });
+        }
         for f in &ctx.findings { println!("{}", f.json()); }
-        eprintln!("evaluations={} findings={}", ctx.evals, ctx.findings.len());
+        eprintln!("evaluations={} findings={} parse_allocs={}", ctx.evals, ctx.findings.len(), pa);
         std::process::exit(if ctx.findings.is_empty() { 0 } else { 1 });
     }
     if args.len() >= 6 && args[1] == "replay" {
